@@ -13,7 +13,7 @@
            "fv"    feature-variation records (condition boxes) on 1..2 axes
    Lattice encoding: a coordinate k stands for k/D; user axes are <<-D*dn, 0, D*dp>> so that
    user coordinate U(k) = k*dn (k < 0), k*dp (k >= 0) normalises to k/D.                     *)
-EXTENDS Instancer, SequencesExt, TLC
+EXTENDS Instancer, SequencesExt, Json, TLC
 CONSTANTS FAMILY, D, NV, DeltaVecs, Dists, Lim2, MapIds
 VARIABLES phase, cs, verdict
 vars == <<phase, cs, verdict>>
@@ -147,6 +147,6 @@ Init == /\ phase = "gen" /\ verdict = "pending"
 Next == /\ phase = "gen" /\ phase' = "judged"
         /\ verdict' = Verdict(cs) /\ UNCHANGED cs
 Sound == verdict \in {"pending", "ok"}
-Emit == phase = "gen" => PrintT(<<"GEN", cs.vars, cs.lims, cs.map, cs.fvs>>)
-Bad == (phase = "judged" /\ verdict # "ok") => PrintT(<<"BAD", verdict, cs.vars, cs.lims, cs.map, cs.fvs>>)
+Emit == phase = "gen" => PrintT(<<"GEN", ToJson(cs)>>)
+Bad == (phase = "judged" /\ verdict # "ok") => PrintT(<<"BAD", verdict, ToJson(cs)>>)
 =============================================================================
